@@ -756,7 +756,32 @@ def build_lut(ctx, rng, idx, force_area=False):
         if name == "LE-2D-FEM-19" and rng.random() < 0.05:
             arg = "FEM-2Daxis"          # deprecated alias of the documentation
         lut, _ = _model_for(arg)
-        return arg, lut, {"lut": arg, "lut_route": "builtin"}
+        desc = {"lut": arg, "lut_route": "builtin"}
+        if rng.random() < 0.2:
+            # earlier in the process the client tried to register its own table under the
+            # name of this built-in one (an edited copy whose identifier was not changed);
+            # the documented refusal was caught and work goes on with the built-in table
+            from dclab.features.emodulus import load
+            data, meta, featx, _style = gen_user_lut(rng, name)
+            path = boot.scratch() / f"lut_refused_{ctx.seed}_{idx}_{_State.ncalls}.txt"
+            path.write_text(M.format_lut_text(data, meta, featx))
+            before = sorted((str(k), str(v)) for k, v in load.EXTERNAL_LUTS.items())
+            try:
+                if rng.random() < 0.5:
+                    emodulus.register_lut(path, identifier=name)
+                else:
+                    emodulus.register_lut(path)
+            except ValueError:
+                ctx.count("registrations_refused_for_builtin_identifier")
+                desc["history"] = "refused registration under this identifier"
+                after = sorted((str(k), str(v)) for k, v in load.EXTERNAL_LUTS.items())
+                ctx.check("c05.tables_unmodified", before == after,
+                          lambda: dict(desc, registry_before=before, registry_after=after),
+                          message="a refused register_lut() call changed the registry of "
+                                  "external tables")
+            else:
+                ctx.count("registrations_accepted_for_builtin_identifier")
+        return arg, lut, desc
     for attempt in range(20):
         ident = f"vmon-{ctx.seed}-{idx}-{_State.ncalls}-{attempt}"
         data, meta, featx, style = gen_user_lut(rng, ident)
